@@ -21,7 +21,10 @@ TOL = 1e-12
 
 # Configurations that reproduced the hash-seed dependence found while building this check (notes/C09.md, "Findings";
 # repaired in /repo by 05a3345 and b8c228d).  They stay in the default fresh-process set so that a revert is caught.
-HASHSEED_MATRIX = [[1, 1], [1, 2], [1, 3]]
+HASHSEED_MATRIX = [[1, 1], [1, 2]]          # thinned in round 6 (was seeds 1, 2, 3); thorough uses HASHSEED_MATRIX_T
+HASHSEED_MATRIX_T = [[1, 1], [1, 2], [1, 3]]
+SEEDS_POOLS = [[2, 0], [4, 1]]              # PYTHONHASHSEED 0 and 1, two pool sizes
+SEEDS_POOLS_T = [[2, 0], [4, 1], [2, 2], [8, 3]]
 KNOWN_CANDIDATES = [
     {"B": 600, "s": 1, "cols": ["id", "f1", "f2", "f3", "f4", "label"], "heuristic": "MI-numba-randomized", "target_only": "False",
      "seed": 5, "segments": [[1900, 6, 0]], "entry": "task", "extra_args": ["--feature_set_focus", "f1,f2,f3,f4"], "matrix": HASHSEED_MATRIX},
@@ -46,6 +49,20 @@ def gen_base(rng, small=False):
             "entry": "task", "interaction_order": io, "cap": cap, "noise": rng.choice(["False", "False", "True"]),
             "trailing_newline": True, "crlf": False, "disable_tqdm": rng.choice(["True", "True", "False"]),
             "extra_args": rng.choice([[], [], ["--mi_stratified_sampling_ratio", rng.choice(["0.5", "0.8", "0.3"])]])}
+
+
+# Round 6: two more configurations whose column order came from set iteration (repaired by 5ac7e28 and a66d22b).
+ROUND6 = [
+    # a reference model with several COMBINED features, pairwise mode
+    {"B": 300, "s": 1, "cols": ["id", "f1", "f2", "f3", "f4", "label"], "heuristic": "MI-numba-randomized", "target_only": "False",
+     "seed": 31, "segments": [[300, 6, 0]], "entry": "task", "reference_features": ["f1", "f1,f2", "f3,f4", "f2,f4", "f1,f3"],
+     "matrix": SEEDS_POOLS},
+    # ob-csv folder with three Float features, --transformers minimal, pairwise mode, one batch
+    {"B": 600, "s": 1, "cols": ["x", "y", "zz", "cat", "label"], "heuristic": "MI-numba-randomized", "target_only": "False",
+     "seed": 32, "segments": [[600, 5, 0]], "entry": "task",
+     "ob_csv": {"rows": 600, "features": [["x", "Float"], ["y", "Float"], ["zz", "Float"], ["cat", "String"], ["label", "String"]]},
+     "extra_args": ["--transformers", "minimal"], "matrix": SEEDS_POOLS},
+]
 
 
 ORDERED = [(1, "reverse"), (2, "random"), (4, "pathos-like"), (8, "last-worker-first"), (16, "random"), (3, "random"),
@@ -179,7 +196,8 @@ def check(run, replay):
         for _ in range(nb):
             groups.append(variants(run.rng, gen_base(run.rng), 4, 2))
         cfgs += cli_configs(run.tier)
-        cfgs += KNOWN_CANDIDATES
+        cfgs += [dict(k, matrix=HASHSEED_MATRIX if quick else HASHSEED_MATRIX_T) for k in KNOWN_CANDIDATES]
+        cfgs += [dict(k, matrix=SEEDS_POOLS if quick else SEEDS_POOLS_T) for k in ROUND6]
         matrix = cli_matrix(run.tier)
     cli_groups = []
     for cfg in cfgs:
